@@ -123,3 +123,7 @@ def expected(model):
         ("extra", "resid"): Exact(np.array(m["resid"])),
         ("atmasses",): Approx(m["weight"] * units.amu, atol=0.5e-5 * units.amu, rtol=units.RTOL),
     })
+
+
+# Classes that are generated but NOT asserted by C03 (triage decisions, see DESIGN.md section 7): class -> reason
+NOT_ASSERTED = {'alpha_resid': 'alphanumeric RESID: reader documents integer residue ids'}
